@@ -557,16 +557,20 @@ func (crashScen) execProc(w *World, c *CrashCase, res *Result) *Result {
 		cmd   int
 		keep  int // >= 0: afterwards truncate cache.json to this many bytes
 		label string
+		fsize int // > 0: no kill; the invocation runs under a file size limit of so many bytes (disk full inside its writes)
 	}
 	var variants []variant
 	kr := NewRng(c.KSeed, "prockill", 0)
 	for _, n := range closure {
 		for i := 0; i < s.prog.Task(n).NCmd; i++ {
-			variants = append(variants, variant{n, i, -1, fmt.Sprintf("kill@%s#%d", n, i)})
+			variants = append(variants, variant{n, i, -1, fmt.Sprintf("kill@%s#%d", n, i), 0})
 		}
 	}
 	for i := 0; i < 3; i++ {
-		variants = append(variants, variant{"", 0, kr.Intn(120), "tearfile"})
+		variants = append(variants, variant{"", 0, kr.Intn(120), "tearfile", 0})
+	}
+	for _, lim := range []int{Pick(kr, []int{60, 70, 78}), Pick(kr, []int{100, 150, 200})} {
+		variants = append(variants, variant{"", 0, -1, fmt.Sprintf("fsize%d", lim), lim})
 	}
 	cachePath := filepath.Join(w.Proj, ".spok", "cache.json")
 	for _, vr := range variants {
@@ -576,7 +580,15 @@ func (crashScen) execProc(w *World, c *CrashCase, res *Result) *Result {
 			s.ctl[key] = 137
 			writeFile(filepath.Join(w.Ctl, key), "kill -9 $$\n")
 		}
-		obs := s.killedRun(res, c.Sched, c.Run, NoFaults(), vr.label)
+		f := NoFaults()
+		if vr.fsize > 0 {
+			// the side-effect log is subject to the limit too: start it afresh so that only the cache writes hit it
+			must(os.WriteFile(w.Log, nil, 0o644))
+			s.logLen = 0
+			f.FsizeLimit = vr.fsize
+			res.count("fault_fired:file_size_limit")
+		}
+		obs := s.killedRun(res, c.Sched, c.Run, f, vr.label)
 		res.Ops++
 		if vr.task != "" {
 			s.setCtl(vr.task, vr.cmd, 0) // the kill was an event, not a property of the command
@@ -591,6 +603,15 @@ func (crashScen) execProc(w *World, c *CrashCase, res *Result) *Result {
 			return res
 		}
 		class := "kill"
+		if vr.fsize > 0 {
+			class = "fsize"
+			if b, err := os.ReadFile(cachePath); err == nil {
+				var m map[string]string
+				if json.Unmarshal(b, &m) != nil {
+					res.count("probe:file_size_limit_left_invalid_cache")
+				}
+			}
+		}
 		if vr.keep >= 0 {
 			class = "tear"
 			if b, err := os.ReadFile(cachePath); err == nil && len(b) > 0 {
